@@ -662,6 +662,17 @@ def insertionEnclosing (spans : List OSpan) (start stop : Nat) : Option Str :=
     | some id => if real.all (fun x => x.sp.insId == some id) then some id else none
     | none => none
 
+/-- `insertion_around`: id of the pending insertion whose text lies directly on both sides of `index` -/
+def insertionAround (spans : List OSpan) (index : Nat) : Option Str :=
+  let before := spans.filter fun o => o.real && o.start < index && index ≤ o.stop
+  let after := spans.filter fun o => o.real && o.start ≤ index && index < o.stop
+  match before.getLast?, after.head? with
+  | some b, some a =>
+    match truthyStr b.sp.insId with
+    | some id => if a.sp.insId == some id then some id else none
+    | none => none
+  | _, _ => none
+
 mutual
   /-- first `w:ins` with the given id in document order: (path below the part, node index, first run child) -/
   def findInsBlocks (id : Str) : List Block → Nat → Option (List Nat × Nat × Option Run)
